@@ -511,6 +511,11 @@ func (c *Context) onRestart(message *RestartMessage, behavior vivid.Behavior) {
 	// 标记正在重启：仅允许从 running 进入。上述推导未考虑外部 Kill 与故障重启并发的情形——
 	// 若 Actor 已因显式 Kill 处于 killing（例如正在等待子 Actor 终止），此时再接受重启会使其在子 Actor 终止后被"复活"，显式 Kill 因而丢失
 	if !atomic.CompareAndSwapInt32(&c.state, running, killing) {
+		// 监督者在下发重启前已挂起目标邮箱，而僵尸不会再走到 handleRestart 的恢复逻辑，也不会终止：
+		// 未被接受的重启若不在此恢复邮箱，僵尸将永久停留在暂停状态，其毒杀消息亦无法被处理
+		if c.zombie {
+			c.mailbox.Resume()
+		}
 		return
 	}
 	c.restarting = message
